@@ -146,6 +146,13 @@ def run(ctx):
             mag = A.vector_magnitude(a)
             aa = A.dot_vectors(a, a)
             same("mag_sq" + tag, mag**2, aa, enc=enc, build=B + "law='mag_sq'\n")
+            # complex components x_j + i y_j ("arbitrary symbolic or numeric components"): |v|^2 is still the self dot product v.v
+            if na > 0:
+                xs_ = sp.symbols(f"x0:{na}", real=True)
+                ys_ = sp.symbols(f"y0:{na}", real=True)
+                vc = Vector([x + sp.I * y for x, y in zip(xs_, ys_)], C)
+                diff_c = sp.expand_complex(sp.expand(A.vector_magnitude(vc)**2 - A.dot_vectors(vc, vc)))
+                same("mag_sq_complex" + tag, list(diff_c.as_real_imag()), [sp.S.Zero, sp.S.Zero], build=B + "law='mag_sq_complex'\n")
             # magnitude nonnegative
             enc = Enc()
             mt = enc.tr(mag)
@@ -315,6 +322,10 @@ for attempt in range(40 if not vals else 1):
             if dot(pb, pb) == 0: continue
             pr = [dot(pa, pb)/dot(pb, pb)*x for x in pb]
             ok = vclose(A.project_vector(a, b).components, pr) and vclose(A.reject_cartesian_vector(a, b).components, [x-y for x, y in zip(pa, pr)])
+        elif law == 'mag_sq_complex':
+            vc = Vector([x + sp.I * sp.Rational(j + 2, 3) for j, x in enumerate(a.components)], C)
+            d_ = sp.N(sp.expand(A.vector_magnitude(vc)**2 - A.dot_vectors(vc, vc)), 30)
+            print("complex components", vc.components, "|v|^2 - v.v =", d_); ok = abs(d_) < 1e-20
         elif law in ('mag_sq', 'mag_nonneg'):
             m = A.vector_magnitude(a); ok = close(m**2, dot(pa, pa)) and sp.N(m) >= 0
         elif law == 'scale_add':
